@@ -950,7 +950,9 @@ func (s *c20Sup) stageFaults() {
 	}
 	// the small tmpfs of the design: 256 KB, a large store cannot fit at all
 	if s.mountns {
-		cases = append(cases, c20FaultCase{Kind: "enospc-256k-tmpfs", Tmpfs: "256k", K: 3, Window: 4}, c20FaultCase{Kind: "enospc-256k-tmpfs", Tmpfs: "256k", K: 5, Window: 2})
+		cases = append(cases, c20FaultCase{Kind: "enospc-256k-tmpfs", Tmpfs: "256k", K: 3, Window: 4}, c20FaultCase{Kind: "enospc-256k-tmpfs", Tmpfs: "256k", K: 5, Window: 2},
+			// the same without anybody removing the partial temp files: observed only (does a small store still fit afterwards?)
+			c20FaultCase{Kind: "enospc-256k-tmpfs-debris", Tmpfs: "256k", K: 5, Window: 2})
 	}
 
 	ch := make(chan c20FaultCase, len(cases))
@@ -975,7 +977,7 @@ func (s *c20Sup) faultCase(c c20FaultCase) {
 	dir, cleanup := s.newDir("fault-"+c.Kind, c.Tmpfs)
 	defer cleanup()
 	startNum := c.K - 2
-	if c.Kind == "enospc-256k-tmpfs" {
+	if strings.HasPrefix(c.Kind, "enospc-256k-tmpfs") {
 		startNum = 2 // a small configuration; everything up to the fault is small
 	}
 	if startNum >= 1 {
@@ -984,7 +986,7 @@ func (s *c20Sup) faultCase(c c20FaultCase) {
 		startNum = 0
 	}
 	first := startNum + 1
-	if c.Kind == "enospc-256k-tmpfs" {
+	if strings.HasPrefix(c.Kind, "enospc-256k-tmpfs") {
 		first = c.K
 	}
 	var steps []c20Step
@@ -1053,6 +1055,8 @@ func (s *c20Sup) faultCase(c c20FaultCase) {
 				if off {
 					st.Post = func() { os.Remove(filepath.Join(dir, "filler")) }
 				}
+			case "enospc-256k-tmpfs-debris":
+				// nothing to switch on or off
 			case "enospc-256k-tmpfs":
 				// nothing to switch on: the file system is simply too small for the large configuration;
 				// after each attempt the debris is removed (as an operator would), so that a small configuration fits again
